@@ -86,7 +86,9 @@ func (its *BaseDatatype) executeRemoteBase(op iface.Operation) {
 
 // Replay replays an already executed operation.
 func (its *BaseDatatype) Replay(op iface.Operation) errors.OrdaError {
-	if its.opID.CUID == op.GetID().CUID {
+	// An operation of this client that is already counted in the restored sequence number was not issued here after
+	// the rollback point: it was received (a re-subscription is answered with the client's own stored operations).
+	if its.opID.CUID == op.GetID().CUID && op.GetID().GetSeq() > its.opID.GetSeq() {
 		_, err := its.executeLocalBase(op)
 		if err != nil { // TODO: if an operation fails to be executed, opID should be rollbacked.
 			return err
